@@ -230,7 +230,9 @@ func (t *Task) yieldAt(site int) {
 func MutexLock(m *sync.Mutex, site int) {
 	t := runningTask()
 	if t == nil {
-		if !m.TryLock() {
+		if !singleCaller() {
+			m.Lock()
+		} else if !m.TryLock() {
 			inlineDeadlock("sync.Mutex.Lock", site)
 		}
 		return
@@ -251,7 +253,9 @@ func MutexUnlock(m *sync.Mutex, site int) {
 func RWMutexLock(m *sync.RWMutex, site int) {
 	t := runningTask()
 	if t == nil {
-		if !m.TryLock() {
+		if !singleCaller() {
+			m.Lock()
+		} else if !m.TryLock() {
 			inlineDeadlock("sync.RWMutex.Lock", site)
 		}
 		return
@@ -272,7 +276,9 @@ func RWMutexUnlock(m *sync.RWMutex, site int) {
 func RWMutexRLock(m *sync.RWMutex, site int) {
 	t := runningTask()
 	if t == nil {
-		if !m.TryRLock() {
+		if !singleCaller() {
+			m.RLock()
+		} else if !m.TryRLock() {
 			inlineDeadlock("sync.RWMutex.RLock", site)
 		}
 		return
@@ -301,6 +307,19 @@ func (t *Task) unlocked(m unsafe.Pointer, site int) {
 	t.rmu = m
 	t.rsite = site
 	t.yield(reqUnlock)
+}
+
+// singleCaller tells whether the library is known to be executed by one goroutine only right now: an inline run of the
+// simulator, or an operation executed in oracle mode. Without a simulator (the repository's own tests running on the
+// rewritten copy, with real goroutines) nothing is known and blocking operations stay blocking.
+//
+//go:norace
+func singleCaller() bool {
+	if installed() != nil {
+		return true
+	}
+	c := curCtx()
+	return c != nil && ctxOracle(c)
 }
 
 // inlineDeadlock: in a single-task (inline) run only one goroutine ever executes library code (the instrumenter refuses
@@ -643,6 +662,10 @@ func Recv[T any](ch <-chan T, site int) T {
 func RecvOK[T any](ch <-chan T, site int) (T, bool) {
 	t := runningTask()
 	if t == nil {
+		if !singleCaller() {
+			v, ok := <-ch
+			return v, ok
+		}
 		select {
 		case v, ok := <-ch:
 			return v, ok
@@ -671,6 +694,10 @@ func RecvOK[T any](ch <-chan T, site int) (T, bool) {
 func Send[T any](ch chan<- T, v T, site int) {
 	t := runningTask()
 	if t == nil {
+		if !singleCaller() {
+			ch <- v
+			return
+		}
 		select {
 		case ch <- v:
 		default:
